@@ -92,6 +92,10 @@ pub struct NetScript {
     pub dead: Vec<SocketAddr>,
     /// fate of direct messages per destination (overrides the queue)
     pub per_dst: BTreeMap<SocketAddr, Verdict>,
+    /// destinations that receive nothing that is pushed (direct and batched replication) but answer repair traffic
+    pub deaf: Vec<SocketAddr>,
+    /// document fetches may fail too (the poller's watchdog follows the paused clock since hook H-time)
+    pub fail_fetches: bool,
     pub log: Vec<(SocketAddr, Class, Verdict)>,
 }
 
@@ -103,7 +107,7 @@ pub fn install_net() -> Net {
     datacake_rpc::verif::set_policy(Some(Rc::new(move |dst, path| {
         let mut n = n2.borrow_mut();
         let class = classify(path);
-        let v = if n.dead.contains(&dst) {
+        let v = if n.dead.contains(&dst) || (n.deaf.contains(&dst) && matches!(class, Class::Direct | Class::Batch)) {
             Verdict::FailBefore
         } else {
             match class {
@@ -115,7 +119,7 @@ pub fn install_net() -> Net {
                 // a failed document fetch makes the poller wait on a wall-clock (std::time) watchdog,
                 // which a paused-time simulation cannot advance: fetches are only delayed / duplicated
                 Class::Fetch => match n.repair.pop_front().unwrap_or(Verdict::Deliver) {
-                    Verdict::FailBefore | Verdict::FailAfter => Verdict::Deliver,
+                    Verdict::FailBefore | Verdict::FailAfter if !n.fail_fetches => Verdict::Deliver,
                     v => v,
                 },
                 Class::Poll | Class::GetState => n.repair.pop_front().unwrap_or(Verdict::Deliver),
